@@ -243,8 +243,23 @@ Fixpoint upd (i : nat) (v : Z) (l : list Z) : list Z :=
   | a :: r, S i' => a :: upd i' v r
   end.
 Definition updZ (i v : Z) (l : list Z) : list Z := upd (Z.to_nat i) v l.
-Definition nflip (n : Z) (p : Q) : Z := Qfloor (inject_Z n * p).    (* int(n * p), p >= 0 *)
-Definition p_ok (p : Q) : bool := Qle_bool 0 p && Qle_bool p 1.
+Definition nflip (n : Z) (p : Q) : Z := Qfloor (inject_Z n * p).    (* floor(n p), the count the property names *)
+(* the call raises only when more cells than rows are requested (np.random.choice, replace=False); p >= 0 is a precondition *)
+Definition p_ok (n : Z) (p : Q) : bool := Qle_bool 0 p && (nflip n p <=? n).
+Definition eps9 : Q := 1 # 1000000000.
+(* p is the exact value of the double passed in; n * p is exact in doubles when p has at most 20 fractional bits *)
+Definition small_dyadic (n : Z) (p : Q) : bool :=
+  let d := Zpos (Qden p) in (d <=? 2 ^ 20) && (2 ^ Z.log2 d =? d) && (n <? 2 ^ 30).
+(* the code computes int(n * p) in DOUBLES; its value k is an oracle answer (the size it asks np.random.choice for).
+   Contract: k = floor(n p), except that a product within 1e-9 of an integer may round to the other side of it. *)
+Definition kflip_ok (n : Z) (p : Q) (k : Z) : bool :=
+  let x := (inject_Z n * p)%Q in
+  let f := Qfloor x in
+  let g := (x - inject_Z f)%Q in
+  if small_dyadic n p then k =? f
+  else if qlt_bool g eps9 then (k =? f) || (k =? f - 1)
+  else if qlt_bool (1 - eps9)%Q g then (k =? f) || (k =? f + 1)
+  else k =? f.
 Definition idx_answer_ok (n k : Z) (m : Z) (ixs : list Z) : bool :=
   (m =? n) && (lenZ ixs =? k) && forallb (in_range n) ixs && nodupb ixs.
 
@@ -254,15 +269,18 @@ Definition pyslice (l : list Z) (a b : Z) : list Z := firstn (Z.to_nat (b - a)) 
 Definition dict := list (Z * list Z).
 Fixpoint lookup (k : Z) (d : dict) : option (list Z) :=
   match d with [] => None | (k', s) :: r => if k =? k' then Some s else lookup k r end.
-(* unique_per_label, with the code's slices: [0, c_0) for the first label,
-   [c_{i-1}, c_{i-1} + c_i - 1) for label i >= 1 of the label-sorted feature *)
-Definition upl (fs lv lc : list Z) : dict :=
+(* unique_per_label.  cum = false: the slices of the code as first read: [0, c_0) for the first label,
+   [c_{i-1}, c_{i-1} + c_i - 1) for label i >= 1 of the label-sorted feature (previous count instead of the cumulative
+   offset, last row dropped).  cum = true: the repaired slices [c_0 + .. + c_{i-1}, c_0 + .. + c_i).
+   The harness determines which variant the code under test implements (one variant must explain every case of a run). *)
+Definition upl (cum : bool) (fs lv lc : list Z) : dict :=
   map (fun i => let ci := nth i lc 0 in
                 (nth i lv 0,
-                 match i with
-                 | O => dedup (pyslice fs 0 ci)
-                 | S i' => let cp := nth i' lc 0 in dedup (pyslice fs cp (cp + ci - 1))
-                 end)) (seq 0 (length lv)).
+                 if cum then let off := zsum (firstn i lc) in dedup (pyslice fs off (off + ci))
+                 else match i with
+                      | O => dedup (pyslice fs 0 ci)
+                      | S i' => let cp := nth i' lc 0 in dedup (pyslice fs cp (cp + ci - 1))
+                      end)) (seq 0 (length lv)).
 (* np.where(label_values != current_label)[0]: INDICES into label_values *)
 Definition possible (lv : list Z) (lab : Z) : list Z :=
   map (fun i => Z.of_nat i) (filter (fun i => negb (nth i lv 0 =? lab)) (seq 0 (length lv))).
@@ -319,9 +337,9 @@ Fixpoint flips (lv : list Z) (d : dict) (ysort inds : list Z) (ixs : list Z) (co
                end
   end.
 
-Definition noise_col_cat (lv lc ysort inds : list Z) (n k : Z) (col : list Z) (st : list ans) : res (list Z * list ans) :=
+Definition noise_col_cat (cum : bool) (lv lc ysort inds : list Z) (n k : Z) (col : list Z) (st : list ans) : res (list Z * list ans) :=
   let fs := map (nthZ col) inds in
-  let d := upl fs lv lc in
+  let d := upl cum fs lv lc in
   match st with
   | AIdx m ixs :: st' => if idx_answer_ok n k m ixs then flips lv d ysort inds ixs col st' else BadOracle
   | _ => BadOracle
@@ -346,13 +364,14 @@ Definition finish {A} (r : res (A * list ans)) : res A :=
 
 (* inds = y.argsort() is an oracle answer too (numpy's default sort is not stable):
    it must be a permutation of 0..n-1 that sorts y *)
-Definition noise_cat (cols : mat) (y : list Z) (p : Q) (inds : list Z) (st : list ans) : res mat :=
+Definition noise_cat (cum : bool) (cols : mat) (y : list Z) (p : Q) (k : Z) (inds : list Z) (st : list ans) : res mat :=
   let n := lenZ y in
   if negb (is_perm n inds && sortedb (map (nthZ y) inds)) then BadOracle else
-  if negb (p_ok p) then Raises else
+  if negb (p_ok n p) then Raises else
+  if negb (kflip_ok n p k) then BadOracle else
   let lv := uniq y in
   let lc := map (fun v => countZ v y) lv in
-  finish (cols_loop (noise_col_cat lv lc (map (nthZ y) inds) inds n (nflip n p)) cols st).
+  finish (cols_loop (noise_col_cat cum lv lc (map (nthZ y) inds) inds n k) cols st).
 
 (* ---- missing-value noise ---- *)
 Definition noise_col_missing (n k marker : Z) (col : list Z) (st : list ans) : res (list Z * list ans) :=
@@ -361,9 +380,10 @@ Definition noise_col_missing (n k marker : Z) (col : list Z) (st : list ans) : r
                          then Ok (fold_left (fun c ix => updZ ix marker c) ixs col, st') else BadOracle
   | _ => BadOracle
   end.
-Definition noise_missing (cols : mat) (n : Z) (p : Q) (marker : Z) (st : list ans) : res mat :=
-  if negb (p_ok p) then Raises else
-  finish (cols_loop (noise_col_missing n (nflip n p) marker) cols st).
+Definition noise_missing (cols : mat) (n : Z) (p : Q) (k : Z) (marker : Z) (st : list ans) : res mat :=
+  if negb (p_ok n p) then Raises else
+  if negb (kflip_ok n p k) then BadOracle else
+  finish (cols_loop (noise_col_missing n k marker) cols st).
 
 (* ---- down-sampling (row-major) ---- *)
 Definition rows_of (X : mat) (y : list Z) (label : Z) : mat :=
@@ -414,6 +434,62 @@ Definition downsample (X : mat) (y : list Z) (n : option Z) (reshuffle : bool) (
     end
   end.
 
+(* ---- generate_labels with np.percentile as an ORACLE -------------------------------------------------------
+   The code computes its percent list in doubles (it ACCUMULATES the double 100/n for a scalar p and n > 2:
+   33.33333333333333, 66.66666666666666, ...) and np.percentile computes the virtual index and the interpolation in
+   doubles.  The recorded percent list and the recorded cut points (exact rationals of the doubles) are therefore
+   answers; the model checks the contract:
+     * every recorded percent is within 1e-9 of the requested cumulative proportion ([label_percents]);
+     * every recorded cut point lies in the bracket [s_a, s_(a+1)) of the sorted decision values where a is the floor
+       of the virtual index (N-1) pc / 100 -- or a neighbouring bracket when that index is within 1e-9 of an integer
+       (double rounding may land on either side);
+     * non-decreasing requested percents give non-decreasing cut points. *)
+Definition qclose (a b : Q) : bool := Qle_bool (a - b) eps9 && Qle_bool (b - a) eps9.
+Definition bracket (s : list Z) (a : Z) (c : Q) : bool :=
+  let a' := Z.min (a + 1) (lenZ s - 1) in
+  Qle_bool (inject_Z (nthZ s a)) c && Qle_bool c (inject_Z (nthZ s a')) &&
+  (qlt_bool c (inject_Z (nthZ s a')) || (nthZ s a' <=? nthZ s a)).
+Definition cut_ok (s : list Z) (pc c : Q) : bool :=
+  let vi := (inject_Z (lenZ s - 1) * (pc / 100))%Q in
+  let j := Qfloor vi in
+  let g := (vi - inject_Z j)%Q in
+  bracket s j c
+  || (qlt_bool g eps9 && (1 <=? j) && bracket s (j - 1) c)
+  || (qlt_bool (1 - eps9)%Q g && (j + 1 <=? lenZ s - 1) && bracket s (j + 1) c).
+Fixpoint forallb2 {A B} (f : A -> B -> bool) (l : list A) (m : list B) : bool :=
+  match l, m with
+  | [], [] => true
+  | a :: r, b :: t => f a b && forallb2 f r t
+  | _, _ => false
+  end.
+Fixpoint qsortedb (l : list Q) : bool :=
+  match l with a :: ((b :: _) as r) => Qle_bool a b && qsortedb r | _ => true end.
+(* which entries of the recorded arrays are cut points: the sequence path with n > 2 asks for the 0th percentile first *)
+Definition used_part {A} (n : Z) (p : pspec) (l : list A) : list A :=
+  match p with PList _ => if 2 <? n then tl l else l | PScalar _ => l end.
+
+(* scalar p with n > 2.  honour = false: the code as first read ignores it (uniform 100/n steps).
+   honour = true (proposed repair): p = 1/2 (the default) keeps the uniform split, any other p gives class 0 the
+   proportion p and splits 1 - p evenly over the other n - 1 classes. *)
+Definition requested_percents (honour : bool) (n : Z) (p : pspec) : option (list Q) :=
+  match p with
+  | PScalar q =>
+    if honour && (2 <? n) && negb (Qeq_bool q (1 # 2))
+    then label_percents n (PList (q :: repeat ((1 - q) / inject_Z (n - 1))%Q (Z.to_nat (n - 1))))
+    else label_percents n p
+  | PList _ => label_percents n p
+  end.
+
+Definition gen_labels_o (honour : bool) (d : list Z) (n : Z) (p : pspec) (rperc rcuts : list Q) : res (list Z) :=
+  match d, requested_percents honour n p with
+  | _ :: _, Some req =>
+    let rp := used_part n (if honour then match p with PScalar q => if (2 <? n) && negb (Qeq_bool q (1 # 2)) then PList [] else p | _ => p end else p) rperc in
+    let rc := used_part n (if honour then match p with PScalar q => if (2 <? n) && negb (Qeq_bool q (1 # 2)) then PList [] else p | _ => p end else p) rcuts in
+    if forallb2 qclose rp req && forallb2 (cut_ok (sort d)) rp rc && (negb (qsortedb req) || qsortedb rc)
+    then Ok (labels_of d rc) else BadOracle
+  | _, _ => Raises
+  end.
+
 (* ------------------------------------------------------------------------------------------ *)
 (* boolean validators of the property's clauses, evaluated on the IMPLEMENTATION's output
    (fallback when the oracle call pattern changes, and the failing-input search) *)
@@ -426,14 +502,14 @@ Fixpoint diff_count (a b : list Z) : Z :=
 Definition same_shape (a b : mat) : bool :=
   (length a =? length b)%nat && forallb (fun co => (length (fst co) =? length (snd co))%nat) (combine a b).
 
-Definition noise_cat_check (cols : mat) (n : Z) (p : Q) (out : mat) : bool :=
-  same_shape cols out &&
-  forallb (fun co => (diff_count (fst co) (snd co) <=? nflip n p) && forallb (fun v => memZ v (fst co)) (snd co)) (combine cols out).
+Definition noise_cat_check (cols : mat) (n : Z) (p : Q) (k : Z) (out : mat) : bool :=
+  same_shape cols out && kflip_ok n p k &&
+  forallb (fun co => (diff_count (fst co) (snd co) <=? k) && forallb (fun v => memZ v (fst co)) (snd co)) (combine cols out).
 
-Definition noise_missing_check (cols : mat) (n : Z) (p : Q) (marker : Z) (out : mat) : bool :=
-  same_shape cols out &&
+Definition noise_missing_check (cols : mat) (n : Z) (p : Q) (k : Z) (marker : Z) (out : mat) : bool :=
+  same_shape cols out && kflip_ok n p k &&
   forallb (fun co => forallb (fun ab => (snd ab =? fst ab) || (snd ab =? marker)) (combine (fst co) (snd co))
-                     && (memZ marker (fst co) || (countZ marker (snd co) =? nflip n p))) (combine cols out).
+                     && (memZ marker (fst co) || (countZ marker (snd co) =? k))) (combine cols out).
 
 Definition downsample_check (X : mat) (y : list Z) (n : option Z) (Xd : mat) (yd : list Z) : bool :=
   match down_n y n with
